@@ -272,8 +272,14 @@ def r6_cancel_bookkeeping(ctx):
               f'(cancelled_at_stage) is then shared by all the nodes that hold the same object')
     tok = ctx.prog.func(f'{N.TOKENS}.SpineOperationToken.is_cancelled_at')
     rets = symex.returns(tok)
-    okc = sorted((G.show(c), src(v)) for c, v, _ in rets) == sorted([('self.cancelled_at_stage is None', 'False'),
-                                                                        ('not (self.cancelled_at_stage is None)', f'self.cancelled_at_stage < {tok.params[1]}')])
+    # the answer as one formula over all return paths, compared with `closed and closed-stage < stage` as a truth table
+    fm = ('const', False)
+    for c_, v_, sp_ in rets:
+        fm = G.disj([fm, G.conj([c_, G._formula(v_)])])
+    a_none = 'self.cancelled_at_stage is None'
+    a_lt = G._cmp_atom(ast.parse('self.cancelled_at_stage', mode='eval').body, ast.Lt(), ast.Name(id=tok.params[1], ctx=ast.Load()))[1]
+    eqc, _cex, unknown_c = G.compare(fm, lambda v: (not v['none']) and v['lt'], {a_none: 'none', a_lt: 'lt'})
+    okc = bool(rets) and eqc and not unknown_c
     ctx.check(okc, 'R6', tok.loc, tok.qualname, 'is-cancelled-at', 'a split is cancelled at a stage iff it was closed strictly before it')
 
 
